@@ -24,6 +24,23 @@ def oracle(ctx, stores):
         hist[k] = hist.get(k, 0) + 1
         if k in ("CHANGED", "DIAGS-CHANGED", "ERROR", "PANIC"):
             bad.append(dict(files=f, base=b, kind=tag, extra_passes=s, why="re-running passes %r after the pipeline: %s" % (s, o[:1500])))
+    # a run that does not come back: "a stable fixed point" presupposes that one is reached.  Non-termination as such is
+    # C06's property (and its two recorded findings); here it counts when the MODEL of the passes, whose iteration is proved
+    # to satisfy the equations whenever it returns, does reach a fixed point on the same program (round 8)
+    late = {}
+    for (f, b, tag), s, o in zip(stores, pick, out):
+        if o.split(" ")[0] == "TIMEOUT":
+            late.setdefault(lib.store_cmd("cfg live -", f, b), (f, b, tag, s))
+    if late:
+        keys = list(late)[:40]
+        mod = lib.run_model(ctx, keys, tag="rerun-timeout-model")
+        again = lib.run_impl(ctx, keys, tag="rerun-timeout-impl", limit_ms=15000)
+        for c, m, a in zip(keys, mod, again):
+            f, b, tag, s = late[c]
+            if m.startswith("C(") and a == "TIMEOUT":
+                bad.append(dict(files=f, base=b, kind=tag, extra_passes="",
+                                why="the pass pipeline reaches no fixed point on this program (no result after 15 s), the model of the passes does: %s" % m[:300]))
+        ctx.coverage["rerun_timeouts_examined"] = len(keys)
     ctx.coverage["rerun_outcomes"] = hist
     return bad
 
@@ -68,7 +85,7 @@ def known(f):
 def run(ctx):
     CTX[0] = ctx
     generic.run(ctx, "C12", ["avail1", "term1", "avail2", "term2", "live"],
-                dict(conforming=40, flow=100, random=60, injected=30, stack=40, loopfn=60, loopslot=30), oracle=oracle, known=known, what="dataflow passes")
+                dict(conforming=40, flow=100, random=60, injected=30, stack=40, loopfn=60, loopslot=30, ecallloop=30), oracle=oracle, known=known, what="dataflow passes")
 
 
 replay = generic.replay
